@@ -181,6 +181,18 @@ pub fn c06(g: &mut Gen) {
         g.group(lines);
     }
     long_partial_superblocks(g);
+    // sparse and run-length vectors over universes up to usize::MAX written and loaded back
+    for (n, vals) in [(MAXU, vec![3u64, 1 << 40, MAXU - 9, MAXU - 1]), (MAXU, vec![7]), (MAXU - 1, vec![0, MAXU - 2]), ((1u64 << 63) + (1u64 << 59), vec![5, 1u64 << 63]), (0xFEDC_BA98_7654_3211, vec![1, 0x1234_5678_9ABC_DEF0, 0xFEDC_BA98_7654_3210])] {
+        let mut lines = vec![format!("sp S build {} 0 {}", n, ws(&vals))];
+        lines.push("ser sizes S".to_string()); lines.push("ser file S".to_string()); lines.push("ser reload S Y extra=1".to_string()); lines.push("sp S eq Y".to_string());
+        for x in [0u64, 7, 1u64 << 63, n - 1, n] { lines.push(format!("sp Y rank {}", x)); lines.push(format!("sp Y succ {}", x)); }
+        let runs: Vec<String> = vals.iter().map(|v| format!("s{},1", v)).collect();
+        lines.push(format!("rl R build : {} l{}", runs.join(" "), n));
+        lines.push("ser sizes R".to_string()); lines.push("ser file R".to_string()); lines.push("ser reload R Z extra=1".to_string()); lines.push("rl R eq Z".to_string());
+        for x in [0u64, 7, 1u64 << 63, n - 1, n] { lines.push(format!("rl Z rank {}", x)); lines.push(format!("rl Z succ {}", x)); }
+        lines.push("ser seq S R S".to_string());
+        g.group(lines);
+    }
     // structures whose loaders REBUILD what is not stored: run-length vectors with more than 8 blocks (the three sample
     // indexes have more than one sample only then), and bitvectors / sparse vectors with several select superblocks
     for nruns in (if g.thorough { vec![300usize, 700, 3300] } else { vec![300usize, 700] }) {
@@ -464,7 +476,14 @@ pub fn c13(g: &mut Gen) {
         for (ty, off, _len) in &parts {
             lines.push(format!("map {} {} trunc=- x=ok : {}", ty, off, fs));
             if *ty == "int" { lines.push(format!("map intget {} trunc=- x=ok : {}", off, fs)); }
-            if *ty == "raw" { lines.push(format!("map rawbits {} trunc=- x=ok : {}", off, fs)); }
+            if *ty == "raw" { lines.push(format!("map rawbits {} trunc=- x=ok : {}", off, fs)); lines.push(format!("map rawints {} trunc=- x=ok : {}", off, fs)); }
+        }
+        // integer views of the widest widths (items straddle words at every alignment)
+        if parts.iter().all(|p| p.0 != "int") || g.rng.chance(1, 2) {
+            for w in [57u64, 58, 59, 61, 63, 64] {
+                let items: Vec<u64> = (0..25).map(|_| g.rng.word() & if w == 64 { !0 } else { (1u64 << w) - 1 }).collect();
+                lines.push(format!("map intget 0 trunc=- x=ok : {}", ws(&doc_int(&items, w))));
+            }
         }
         // views tile the file: the harness prints off= and len= of every view; the driver's model values are the offsets
         // computed from the serialized sizes, so a view that does not end where the next structure starts disagrees
@@ -494,6 +513,8 @@ pub fn c20(g: &mut Gen) {
     // one group (one process): the counter is process-wide, so all cases share it
     let mut lines: Vec<String> = cases.iter().map(|(t, c)| format!("tmp {} {} name-part", t, c)).collect();
     for part in ["name-part", "a_b", "x_1_2", "7", "_", "simple-sds"] { lines.push(format!("tmp name {}", part)); }
+    // long name parts (the name must still end in the process id and the counter)
+    for n in [200usize, 245, 250, 253, 255, 256, 300, 1000] { let part: String = (0..n).map(|i| (b'a' + (i % 26) as u8) as char).collect(); lines.push(format!("tmp name {}", part)); lines.push(format!("tmp 2 {} {}", if g.thorough { 2000 } else { 300 }, part)); }
     g.group(lines);
 }
 
